@@ -268,7 +268,60 @@ def run_case(st: Stats, case):
         st.sample(dict(caller=caller, body=body, expected_calls=sorted(want)))
 
 
+# ---- the standard intrinsic procedures (independent list: Fortran 2008 / 2018, 16.7 and 16.9) ----------------------
+INTRINSIC_FUNCTIONS = """abs achar acos acosh adjustl adjustr aimag aint all allocated anint any asin asinh associated atan atan2 atanh
+bessel_j0 bessel_j1 bessel_jn bessel_y0 bessel_y1 bessel_yn bge bgt ble blt bit_size btest ceiling char cmplx command_argument_count conjg cos cosh
+count cshift dble digits dim dot_product dprod dshiftl dshiftr eoshift epsilon erf erfc erfc_scaled exp exponent extends_type_of findloc floor
+fraction gamma huge hypot iachar iall iand iany ibclr ibits ibset ichar ieor image_index index int ior iparity is_contiguous is_iostat_end
+is_iostat_eor ishft ishftc kind lbound lcobound leadz len len_trim lge lgt lle llt log log_gamma log10 logical maskl maskr matmul max maxexponent
+maxloc maxval merge merge_bits min minexponent minloc minval mod modulo nearest new_line nint norm2 not null num_images pack parity popcnt poppar
+precision present product radix range real repeat reshape rrspacing same_type_as scale scan selected_char_kind selected_int_kind
+selected_real_kind set_exponent shape shifta shiftl shiftr sign sin sinh size spacing spread sqrt storage_size sum tan tanh this_image tiny
+trailz transfer transpose trim ubound ucobound unpack verify""".split()
+INTRINSIC_SUBROUTINES = """cpu_time date_and_time execute_command_line get_command get_command_argument get_environment_variable move_alloc mvbits
+random_number random_seed system_clock atomic_define atomic_ref""".split()
+
+
+def run_intrinsic(st: Stats, case):
+    _, caller, name, is_sub = case
+    if is_sub:
+        body = [f"call {name}(x)", f"if (x > 0) call {name.upper()}(x)", f"call usub(x); call {name} (x)"]
+        want = {"usub"}
+    else:
+        body = [f"r = {name}(x)", f"if ({name.upper()}(x) > 0) r = ufn({name}(x))", f"call usub({name} (x))"]
+        want = {"ufn", "usub"}
+    src = program_text(caller, body)
+    r = fordrun.build_fast({"src/m.f90": src}, dict(display=["public", "private", "protected"], proc_internals=True))
+    st.evaluations += 1
+    st.transitions += 1
+    stratum = f"{caller}/intrinsic-" + ("subroutine" if is_sub else "function")
+    inp = dict(case=list(case), body=body, source=src)
+    feats = dict(caller=caller, stmts="intrinsic", exprs=name, names=name)
+    st.nontrivial.add(core.digest(case))
+    if r.error is not None or "ERROR in file" in r.log or "Error parsing" in r.log:
+        st.violation("ford-failed", stratum, feats, inp, repr(r.error) + r.log[-300:], "parses and correlates")
+        st.stratum(caller, 1)
+        return
+    unit = find_caller(r.project, caller)
+    got = {callname(c) for c in unit.calls}
+    st.states.add(core.digest([caller, name, sorted(got)]))
+    if got != want:
+        st.violation("spurious-call" if got - want else "missing-call", stratum, dict(feats, names=",".join(sorted(got ^ want))), inp, sorted(got), sorted(want))
+        st.stratum(caller, 1)
+    else:
+        st.stratum(caller, 0)
+
+
 def gen_cases(tier):
+    for caller in ("subroutine", "program") if tier == "quick" else CALLERS:
+        for n in INTRINSIC_FUNCTIONS:
+            yield ("intrinsic", caller, n, False)
+        for n in INTRINSIC_SUBROUTINES:
+            yield ("intrinsic", caller, n, True)
+    yield from gen_stmt_cases(tier)
+
+
+def gen_stmt_cases(tier):
     e1 = [lab for (_, _, lab) in exprs(1)]
     e2 = [lab for (_, _, lab) in exprs(2)]
     names = [s[0] for s in STMTS]
@@ -300,7 +353,10 @@ def gen_cases(tier):
 def work(chunk):
     st = Stats()
     for case in chunk:
-        run_case(st, case)
+        if case[0] == "intrinsic":
+            run_intrinsic(st, case)
+        else:
+            run_case(st, case)
     return st
 
 
@@ -309,9 +365,12 @@ def replay(path):
 
     core.use_repo()
     rec = json.loads(open(path).read())
-    caller, stmts = rec["input"]["case"]
     st = Stats()
-    run_case(st, (caller, tuple(tuple(s) for s in stmts)))
+    if rec["input"]["case"][0] == "intrinsic":
+        run_intrinsic(st, tuple(rec["input"]["case"]))
+    else:
+        caller, stmts = rec["input"]["case"]
+        run_case(st, (caller, tuple(tuple(s) for s in stmts)))
     print("\n".join(rec["input"]["body"]))
     for v in st.violations:
         print("REPRODUCED", v["clause"], v["features"].get("names"), "got", v["observed"], "want", v["expected"])
